@@ -50,6 +50,14 @@ def configs(prob, tier):
     out.append({'kkt': None, 'opts': {'maxiters': 3}})
     # tighter than the global defaults: an entry point that drops its per-call options falls short of these
     out.append({'kkt': None, 'opts': {'feastol': 1e-9, 'abstol': 1e-9, 'reltol': 1e-9}})
+    # option sets that arrive through solvers.options (no options= keyword), one right behind a loose per-call call
+    out.append({'kkt': None, 'via': 'global', 'opts': {'feastol': 1e-9, 'abstol': 1e-9, 'reltol': 1e-9}})
+    out.append({'kkt': None, 'via': 'global', 'prelude': LOOSE, 'storage': 'sparse'})
+    # G and A given as Python functions together with a user KKT solver (cp wraps them once more for its epigraph form)
+    if entry != 'gp':
+        out.append({'kkt': None, 'operators': True})
+        out.append({'kkt': None, 'operators': True, 'opts': {'refinement': 0}})
+        out.append({'kkt': None, 'operators': True, 'opts': dict(LOOSE, refinement=2)})
     if d['s']:
         out.append({'kkt': None, 'junk': 55.0})
         out.append({'kkt': 'ldl', 'junk': -7.0, 'storage': 'sparse'})
